@@ -1,6 +1,6 @@
 """C02 — TR-31 unwrap rejects every unauthentic or tampered key block."""
 from core import Case
-from props.tr31util import VERS, rb, rs, rand_blocks, make_header, split_block, unwrap_case, tr31, ALNUM, PRINTABLE
+from props.tr31util import VERS, rb, rs, rand_blocks, make_header, split_block, unwrap_case, tr31, ALNUM, PRINTABLE, Session
 
 OBLIGATIONS = []
 TRUSTED_BASE = ["Lean 4.33 kernel", "hypothesis Ciphers.Lawful", "ASSUMED, not provable in any executable model: EUF-CMA unforgeability of TDES CBC-MAC (32-bit), TDES-CMAC and AES-CMAC, and key separation of the derivations",
@@ -107,6 +107,18 @@ def generate(rng, tier, seed):
                         c = Case(f"{ver}:block-surgery", {"fix": fix})
                         check_verdict(c, unwrap_case(c, kbpk, s), s, G, hl, key)
                         yield c
+                # whitespace inside the MAC / key data fields (bytes.fromhex skips it between byte pairs)
+                for ws in (" ", "\t", "\n"):
+                    cands = [G[:n - 2 * ml] + ws * (2 * ml)]
+                    for j in range(0, 2 * ml, 2):
+                        cands.append(G[:n - 2 * ml + j] + ws * 2 + G[n - 2 * ml + j + 2:])
+                        cands.append(G[:n - 2 * ml + j] + ws * (2 * ml - j))
+                    cands.append(G[:hl] + ws * 2 + G[hl + 2:])
+                    cands.append(G[:5] + ("X0" if G[5:7] != "X0" else "Y0") + G[7:n - 2 * ml] + ws * (2 * ml))
+                    for s in cands:
+                        c = Case(f"{ver}:whitespace-in-binary", {})
+                        check_verdict(c, unwrap_case(c, kbpk, s), s, G, hl, key)
+                        yield c
                 # random multi-edits
                 for _ in range(6 if not full else 30):
                     s = list(G)
@@ -147,6 +159,25 @@ def generate(rng, tier, seed):
                             elif r.err != "tr31":
                                 c.fail(f"rejected with {r.err}")
                             yield c
+            # one object, re-keyed: a block genuine under the first KBPK must be rejected after kb.kbpk is replaced
+            for _ in range(2):
+                G, hl, key = gens[rng.randrange(len(gens))]
+                c = Case(f"{ver}:rekeyed-object", {})
+                se = Session(c, kbpk, None)
+                r1 = se.unwrap(G)
+                if not r1.ok:
+                    c.fail("genuine block rejected")
+                k2 = bytearray(kbpk)
+                k2[rng.randrange(ksize)] ^= 1 << rng.randrange(1, 8)
+                se.setkbpk(bytes(k2))
+                r2 = se.unwrap(G)
+                if r2.ok:
+                    c.fail("after kb.kbpk was replaced by a non-equivalent KBPK the block genuine under the old KBPK is still unwrapped")
+                se.setkbpk(kbpk)
+                r3 = se.unwrap(G)
+                if not r3.ok or r3.value != key:
+                    c.fail("after restoring the KBPK the genuine block is not unwrapped")
+                yield c
             # every single-bit change of the KBPK
             G, hl, key = gens[0]
             for bit in range(8 * ksize):
